@@ -3,7 +3,7 @@
    body that the plain reader decodes from the whole file at that offset.  Instance of the reader
    simulation of C03 (proofs/StreamLemmas.v, sim_fwd); forward direction only (the plain read succeeds). *)
 From Coq Require Import ZArith NArith List Lia ZifyBool ZifyN ZifyNat Bool.
-Require Import ListN Result Bytes Prog Codec PoseRead ProgLemmas StreamLemmas StreamRead C18_Threads C18_Bytes.
+Require Import ListN Result Bytes Prog Codec PoseRead ProgLemmas StreamLemmas StreamRead StreamBack StreamIndep C18_Threads C18_Bytes.
 Import ListNotations.
 Open Scope N_scope.
 
@@ -48,4 +48,36 @@ Proof.
   destruct (run_plain (read_body no_legacy h (j_args j)) {| pbuf := j_file j; poff := po |}) as [[b r']|e1] eqn:Eb; [|discriminate].
   cbn [rmap fst]. intros [= <-].
   destruct (stream_body_any_prefetch _ _ _ _ L pl _ _ He Eb) as [sr' Hs]. exists b, sr'. split; [exact Hs|reflexivity].
+Qed.
+
+(* Full strength (no hypothesis that the bytes read succeeds): whatever prefetch lengths two BytesIOReaders took - the thread's,
+   from a memo another thread may just have replaced, and the solo read's - positioned at the same (header, offset) they decode
+   the same body, or both raise.  With [isolated] (header and offset are those of the solo run) this is the isolation of the whole
+   pose for window reads of streams.  Instance of StreamIndep.amount_indep. *)
+Lemma prefix_reader_inv file L e pl : e <= lenN (takeN L file) ->
+  StreamLemmas.Inv file {| buf := takeN L file; off := e; skipped := 0; pulled := pl |}.
+Proof.
+  intros He. unfold StreamLemmas.Inv. cbn [buf off skipped]. split; [lia|]. exists 0. split; [lia|]. split; [lia|].
+  rewrite N.sub_0_r, N.add_0_l, !C18_Bytes.dropN_0, lenN_takeN. apply takeN_clip.
+Qed.
+Theorem stream_body_prefetch_irrelevant file h a e L L' pl pl' :
+  e <= lenN (takeN L file) -> e <= lenN (takeN L' file) ->
+  match run_stream file (read_body no_legacy h a) {| buf := takeN L file; off := e; skipped := 0; pulled := pl |},
+        run_stream file (read_body no_legacy h a) {| buf := takeN L' file; off := e; skipped := 0; pulled := pl' |} with
+  | Ok (b, _), Ok (b', _) => b = b'
+  | Err _, Err _ => True
+  | _, _ => False
+  end.
+Proof.
+  intros H1 H2.
+  pose proof (amount_indep file _ (v2prog_read_body h a)
+                {| buf := takeN L file; off := e; skipped := 0; pulled := pl |}
+                {| buf := takeN L' file; off := e; skipped := 0; pulled := pl' |}) as H.
+  assert (HT : Twin file {| buf := takeN L file; off := e; skipped := 0; pulled := pl |}
+                         {| buf := takeN L' file; off := e; skipped := 0; pulled := pl' |}).
+  { split; [apply prefix_reader_inv; exact H1|]. split; [apply prefix_reader_inv; exact H2|]. split; reflexivity. }
+  specialize (H HT). unfold twin_result in H.
+  destruct (run_stream file (read_body no_legacy h a) {| buf := takeN L file; off := e; skipped := 0; pulled := pl |}) as [[b s1]|e1];
+    destruct (run_stream file (read_body no_legacy h a) {| buf := takeN L' file; off := e; skipped := 0; pulled := pl' |}) as [[b' s2]|e2];
+    try exact H; try exact I. exact (proj1 H).
 Qed.
